@@ -576,3 +576,36 @@ Proof.
   - intros Hb. apply frep_shl; assumption.
   - intros Hnz Hb. apply (frep_shl_ovf x c j k Hx Hc Hj Hnz); [intros _; exact Hb | lia].
 Qed.
+
+Theorem f64c_sub_round : forall x y, fin x = true -> fin y = true ->
+  (Rabs (rnd64 (b2r x - b2r y)) < bpow radix2 1024)%R ->
+  fin (f64c_sub x y) = true /\ b2r (f64c_sub x y) = rnd64 (b2r x - b2r y).
+Proof.
+  intros x y Fx Fy Hlt.
+  pose proof (Bminus_correct 53 1024 Hprec53 Hmax1024 binop_nan_pl64 mode_NE x y Fx Fy) as C.
+  change (Bminus 53 1024 Hprec53 Hmax1024 binop_nan_pl64 mode_NE x y) with (f64c_sub x y) in C.
+  change (round radix2 (SpecFloat.fexp 53 1024) (round_mode mode_NE)) with rnd64 in C.
+  rewrite (Rlt_bool_true _ _ Hlt) in C. destruct C as (V & F & _). split; assumption.
+Qed.
+
+(** the hypotheses of the exactness lemmas are satisfiable: 5 + 3 = 8, 5 << 1020, 5 << 1022 = +inf, 6 >> 1 = 3 *)
+Example ex_frep :
+  frep (f64_of_N 5) 5 0 /\ frep (f64c_add (f64_of_N 5) (f64_of_N 3)) 8 0 /\
+  frep (f64c_shl (f64_of_N 5) 1020) 5 1020 /\ f64c_shl (f64_of_N 5) 1022 = f64c_pos_inf /\
+  frep (f64c_shr (f64_of_N 6) 1) 6 (-1) /\ f64c_shr (f64_of_N 6) 1 = f64_of_N 3.
+Proof.
+  assert (H5 : frep (f64_of_N 5) 5 0) by (apply of_N_small; discriminate).
+  assert (H3 : frep (f64_of_N 3) 3 0) by (apply of_N_small; discriminate).
+  assert (H6 : frep (f64_of_N 6) 6 0) by (apply of_N_small; discriminate).
+  split; [exact H5|]. split; [|split; [|split; [|split]]].
+  - apply (frep_add _ _ 5 3 0 H5 H3); [discriminate | lia |].
+    rewrite dy_int. apply (IZR_N_lt_bpow 8 1024). reflexivity.
+  - apply (frep_shl _ 5 0 1020 H5); [discriminate | lia | discriminate |].
+    change (0 + Z.of_N 1020)%Z with (Z.of_N 1020 + 0)%Z. rewrite <- dy_shift, dy_int.
+    apply (IZR_N_lt_bpow (5 * 2 ^ 1020) 1024). reflexivity.
+  - vm_compute. reflexivity.
+  - apply (frep_shr _ 6 0 1 H6); [discriminate | discriminate | lia].
+  - apply (frep_unique _ _ 6 (-1)).
+    + apply (frep_shr _ 6 0 1 H6); [discriminate | discriminate | lia].
+    + apply (frep_ext _ 3 0 _ _ H3). unfold dy. simpl. lra.
+Qed.
